@@ -436,4 +436,8 @@ MUTANTS = [
     M("D5-2-wrong-slice", ["C13"], (CD, "        let suit = Suit::from_str(&v[1..2]).map_err(invalid)?;", "        let suit = Suit::from_str(&v[0..1]).map_err(invalid)?;"), base="D5-2"),
     M("D5-2-no-ascii", ["C09"], (CD, "        if v.len() != 2 || !v.is_ascii() {", "        if v.len() != 2 {"), base="D5-2"),
     M("D5-2-len-3", ["C13"], (CD, "        if v.len() != 2 || !v.is_ascii() {", "        if v.len() != 3 || !v.is_ascii() {"), base="D5-2"),
+    M("benign-B8-2-split-at", ["C05", "C09", "C14"], base="B8-2", benign=True),
+    M("B8-2-split-at-3", ["C14"], (CP, "let (left, right) = value.split_at(2);", "let (left, right) = value.split_at(3);"), base="B8-2"),
+    M("B8-2-same-half", ["C14"], (CP, "Ok(CardPair::new(parse_card(left)?, parse_card(right)?))", "Ok(CardPair::new(parse_card(left)?, parse_card(left)?))"), base="B8-2"),
+    M("B8-2-no-ascii", ["C09"], (CP, "        if !value.is_ascii() {", "        if false {"), base="B8-2"),
 ]
